@@ -295,6 +295,11 @@ def sibling_family():
                                     call_show],
                 }
                 for uname, use in uses.items():
+                    if uname == "callblock":        # the binder is called with a call block: it takes (and calls) its caller
+                        fillc = ("macro", "fill", params, defaults, fb + [("emit", ("call", "caller", [], []))])
+                        decls = [show, fillc] if reader_first else [fillc, show]
+                    else:
+                        decls = [show, fill] if reader_first else [fill, show]
                     for outer in ("ctx", "set_before", "set_after", "with", "loop", "in_macro"):
                         core = decls + use
                         if outer == "ctx":
@@ -333,6 +338,81 @@ def sibling_family():
                                 ("emit", ("call", "peek", [], []))]
                 for ctx in ({}, {"n": "N", "t": "T"}):
                     out.append((prog, ctx))
+    return out
+
+
+def loop_and_rebinding_family():
+    """(a) `loop` read where no loop of its own is in scope: in the FILTER of an inner loop it is the
+    enclosing loop (the accumulate loop of a filtered for has no loop variable), at top level it is
+    undefined; also in the iterated expression, in the else part, and in a macro called from a loop.
+    (b) one name called twice in one activation while bound to different callables: re-declared between
+    the calls (plainly, in an if-branch, in a with-block inside a loop), a loop target / set variable
+    holding different macros, a parameter receiving macros; at template level and inside macro bodies.
+    Returns (body, ctx) pairs."""
+    out = []
+    L = lambda f: ("attr", ("var", "loop"), f)
+    fields = ["index", "index0", "revindex", "revindex0", "first", "last", "length"]
+    xs = ("list", [("int", 1), ("int", 2), ("int", 3)])
+    for k, f in enumerate(fields):
+        if f in ("first", "last"):
+            cond = L(f) if k % 2 else ("not", L(f))
+        else:
+            cond = ("cmp", L(f), [([">", "<", ">=", "!="][k % 4], ("int", 1 + k % 2))])
+        inner_body = [("emit", ("var", "y")), ("raw", "."), ("emit", L("index")), ("emit", L("length")), ("raw", " ")]
+        for ys in (("list", [("int", 7), ("int", 8)]), ("var", "ys"), ("list", [])):
+            for els in (None, [("raw", "E"), ("emit", L(f))]):
+                inner = ("for", "y", ys, cond, inner_body, els, False)
+                # filter of an inner loop reads the outer loop; same filter at top level (loop undefined there)
+                out.append(([("for", "x", xs, None, [("emit", ("var", "x")), ("raw", ":"), inner, ("raw", ";")], None, False)], {"ys": [4, 5, 6]}))
+                out.append(([inner], {"ys": [4, 5, 6]}))
+                # two levels: the filter of the innermost loop sees the middle loop, not the outer one
+                mid = ("for", "z", ("list", [("int", 5), ("int", 6)]), None, [inner, ("raw", "|")], None, False)
+                out.append(([("for", "x", xs, None, [mid, ("raw", ";")], None, False)], {"ys": [4, 5, 6]}))
+                # the filtered loop inside a with / set-block / if inside the outer loop
+                out.append(([("for", "x", xs, None, [("with", [("w", L("index"))], [inner, ("emit", ("var", "w"))]),
+                                                      ("setblock", "sb", [inner], None), ("emit", ("var", "sb"))], None, False)], {"ys": [4, 5, 6]}))
+        # the filter reads both the outer loop and the item; the iterated expression reads the outer loop
+        inner2 = ("for", "y", ("list", [L("index"), ("int", 2), L("length")]), ("cmp", ("var", "y"), [("!=", L("index"))]),
+                  [("emit", ("var", "y")), ("emit", L(f))], None, False)
+        out.append(([("for", "x", xs, None, [inner2, ("raw", ";")], None, False)], {}))
+        # a macro called from a loop body (and from a loop filter) does not see the loop
+        m = ("macro", "m", ["v"], [], [("emit", ("var", "v")), ("emit", ("test", "defined", ("var", "loop"), [], False))])
+        out.append(([m, ("for", "x", xs, ("cmp", ("filter", "length", ("call", "m", [("var", "x")], []), []), [(">", ("int", 0))]),
+                         [("emit", ("call", "m", [L(f)], []))], None, False)], {}))
+    # ---- (b) ----
+    def mac(name, txt, params=()):
+        return ("macro", name, list(params), [], [("raw", txt)] + [("emit", ("var", q)) for q in params])
+    call = lambda n, *a: ("emit", ("call", n, list(a), []))
+    A, Bm = mac("a", "A"), mac("b", "B")
+    scenarios = {
+        "redeclared": [mac("f", "1"), call("f"), mac("f", "2"), call("f"), call("f")],
+        "redeclared_if": [mac("f", "1"), call("f"), ("if", [(("var", "c"), [mac("f", "2")])], None), call("f")],
+        "redeclared_in_branch": [mac("f", "1"), ("if", [(("var", "c"), [call("f"), mac("f", "2"), call("f")])], [call("f")]), call("f")],
+        "with_in_loop": [("for", "i", ("list", [("int", 1), ("int", 2), ("int", 3)]), None,
+                          [("with", [("w", ("var", "i"))], [("macro", "f", [], [], [("raw", "<"), ("emit", ("var", "w")), ("raw", ">")]), call("f")])], None, False)],
+        "loop_redeclares": [mac("f", "0"), ("for", "i", ("list", [("int", 1), ("int", 2)]), None,
+                             [call("f"), ("macro", "f", [], [], [("emit", ("var", "i"))]), call("f")], None, False), call("f")],
+        "loop_target": [A, Bm, ("for", "f", ("list", [("var", "a"), ("var", "b"), ("var", "a")]), None, [call("f"), call("f")], None, False)],
+        "set_variable": [A, Bm, ("set", "f", ("var", "a")), call("f"), ("set", "f", ("var", "b")), call("f"), ("set", "f", ("var", "a")), call("f")],
+        "set_in_loop": [A, Bm, ("for", "i", ("list", [("int", 1), ("int", 2), ("int", 3)]), None,
+                         [("set", "f", ("ifexpr", ("cmp", ("var", "i"), [("==", ("int", 2))]), ("var", "b"), ("var", "a"))), call("f")], None, False)],
+        "parameter": [A, Bm, ("macro", "ap", ["f"], [], [call("f"), call("f")]), call("ap", ("var", "a")), call("ap", ("var", "b")), call("ap", ("var", "a"))],
+        "with_rebinds": [A, Bm, ("with", [("f", ("var", "a"))], [call("f"), ("with", [("f", ("var", "b"))], [call("f")]), call("f")])],
+        "args_differ": [mac("f", "1", ("p",)), call("f", ("int", 1)), mac("f", "2", ("p", "q")), call("f", ("int", 1), ("int", 2)), call("f", ("int", 3))],
+        "callblock_redeclared": [("macro", "f", [], [], [("raw", "("), ("emit", ("call", "caller", [], [])), ("raw", ")")]),
+                                 ("callblock", "f", [], [("raw", "x")]),
+                                 ("macro", "f", [], [], [("raw", "["), ("emit", ("call", "caller", [], [])), ("raw", "]")]),
+                                 ("callblock", "f", [], [("raw", "y")]), ("callblock", "f", [], [("raw", "z")])],
+        "shadowed_by_value": [mac("f", "1"), call("f"), ("with", [("f", ("var", "a"))], [call("f")]), call("f")],
+    }
+    for name, prog in scenarios.items():
+        for cval in (True, False):
+            pre = [A] if name == "shadowed_by_value" else []
+            out.append((pre + prog, {"c": cval}))
+            # the same history inside one macro activation, run twice
+            out.append((pre + [("macro", "outerm", ["c"], [], prog), call("outerm", ("bool", cval)), call("outerm", ("bool", not cval))], {}))
+            # ... and inside a loop body
+            out.append((pre + [("for", "r", ("list", [("int", 1), ("int", 2)]), None, prog + [("raw", ";")], None, False)], {"c": cval}))
     return out
 
 
@@ -461,7 +541,8 @@ def main():
         "the reference interpreter Lang/Interp.v is the specification (written from the documented semantics); tools/langenc.py + Lang/Codec.v (AST encoding) and tools/proggen.py (source printer) are unverified glue; the parser is covered by rendering the printed source",
         "L2: coq/theories/L2/Compile.v and L2/Vm.v are hand-written mirrors of codegen.rs and eval_impl; Compile.v is tied to the code by comparing its stream with the real one on every generated program (this file: JSON -> canonical translation, the parser's view of the generated AST - negative literals, merged template data -, LocalId recomputed from the stream, order within Enclose runs ignored, none/undefined constants both `null` in the JSON); Vm.v by the three-way output agreement; the simulation theorems (compile_correct, compile_error) cover the whole Lang syntax"]
     chk.assumptions = ["fragment: expressions (arithmetic, comparison chains, and/or/not, in, ~, if-expressions, lists, subscripts, loop.* attributes, filters length/upper/lower/trim/capitalize/string/abs/default, tests defined/undefined/odd/even, range), if/elif/else, for with else / filter / loop variable / break / continue, set, set-block (with filter), with, macros with defaults and keyword arguments, call blocks with caller(), filter blocks; ASCII strings; integers far from the i128 bounds",
-                       "bytecode level: forward simulation proved for the whole Lang syntax (expressions incl. calls, all statements incl. filtered loops, macros, call blocks), for successful runs (same final state) and for failing runs (same error kind; nothing about the output before the error); everything outside the Lang syntax: stream correspondence + three-way output agreement only"]
+                       "bytecode level: forward simulation proved for the whole Lang syntax (expressions incl. calls, all statements incl. filtered loops, macros, call blocks), for successful runs (same final state) and for failing runs (same error kind; nothing about the output before the error); everything outside the Lang syntax: stream correspondence + three-way output agreement only",
+                       "unpacking set / with targets and loops over strings are outside the Lang syntax: the engine's rendering is compared with the reference interpreter's verdict on an element-wise equivalent program of the fragment (sequential sets through fresh temporaries; the loop over the list of the string's characters), ASCII strings"]
     okm, blog = build_models("C03")
     proofs_ok = chk.run_proofs()
     okc, clog = cargo_build(["prog"], release=False)
@@ -495,6 +576,10 @@ def main():
         for body, ctx in sib:
             progs.append((body, ctx, "lenient"))
         chk.cov["sibling_family_cases"] = len(sib)
+        lrf = loop_and_rebinding_family()
+        for body, ctx in lrf:
+            progs.append((body, ctx, "lenient"))
+        chk.cov["loop_and_rebinding_family_cases"] = len(lrf)
         # constructs outside the Lang syntax, through their element-wise equivalents inside it
         for kind, left, right, ctx in equivalence_family(chk.rng, 0):
             equiv.append((len(progs), kind, left))
@@ -611,7 +696,7 @@ def main():
     chk.cov["evaluations"] = 2 * len(progs) + extra_ctx_runs
     chk.cov["distinct_nontrivial"] = len(nontriv)
     chk.cov["programs"] = len(progs)
-    chk.cov["rule"] = ("typed random core-fragment programs (depth 2-4) x random contexts of ints/strings/bools/lists, the exhaustive closure/scoping family of tools/proggen.py::closure_family, plus standalone expressions `{{ e }}` (depth 2-4, "
+    chk.cov["rule"] = ("typed random core-fragment programs (depth 2-4) x random contexts of ints/strings/bools/lists, the exhaustive closure/scoping family of tools/proggen.py::closure_family, the families of this file (sibling_family: macros of one scope sharing free names, one re-binds a name locally, the others are called afterwards, recursion + call blocks; loop_and_rebinding_family: `loop` in the filter / subject / else part of an inner loop, one name called while bound to different callables; equivalence_family: unpacking set / with and loops over strings through their element-wise equivalents inside the fragment), plus standalone expressions `{{ e }}` (depth 2-4, "
                        "possibly undefined variables, all four undefined modes); each rendered by the engine (debug+release), by the extracted reference interpreter and by the "
                        "extracted model VM on the model compiler's stream; each program's real instruction stream compared with the model compiler's; "
                        "non-trivial = distinct (program, context, mode) rendering to non-empty output without error, programs with >= 3 statement nodes")
